@@ -5,6 +5,7 @@ import LdkModel.Props.C01Close
 import LdkModel.Props.C01Send
 import LdkModel.Props.C01Persist
 import LdkModel.Props.C01Recv
+import LdkModel.Props.C01Raa
 import LdkModel.Props.ChanProto
 #print axioms Ldk.C01.commit_outputs_partition
 #print axioms Ldk.C01.outputs_plus_fee_le_channel_value
@@ -68,6 +69,14 @@ import LdkModel.Props.ChanProto
 #print axioms Ldk.C01Persist.reestablish_generated_on_runs
 #print axioms Ldk.C01Persist.fee_drop_is_necessary
 #print axioms Ldk.C01Recv.sender_limit_admitted_by_receiver_partial
+#print axioms Ldk.C01Recv.real_limit_within_sender_caps
+#print axioms Ldk.C01Recv.real_send_check_admitted_by_receiver_partial
+#print axioms Ldk.C01Recv.can_accept_decision_ok_iff
+#print axioms Ldk.C01Recv.can_accept_decision_reason
+#print axioms Ldk.C01Raa.filterMap_eq_filter_map
+#print axioms Ldk.C01Raa.raa_generated_eq
+#print axioms Ldk.C01Raa.raa_message_generated
+#print axioms Ldk.C01Raa.raa_generated_moves_claimed_funds
 #print axioms Ldk.ChanProto.counters_step_by_one
 #print axioms Ldk.ChanProto.counters
 #print axioms Ldk.ChanProto.at_most_one_outstanding
